@@ -32,7 +32,8 @@ LEVEL_TEXT = (
     'Decides these for every lookup site and protocol override.')
 LEVEL_NOTE = ('Trusted: dict exact-key semantics; unknown transformations '
               'are recorded, not flagged.')
-TECHNIQUE = 'local taint/dataflow over the routing functions + structural branch analysis (ast)'
+TECHNIQUE = ('local taint/dataflow over the routing functions + structural '
+             'branch analysis + guard entailment (ast)')
 
 BLACK_METHODS = {'lower', 'upper', 'casefold', 'strip', 'lstrip', 'rstrip',
                  'replace', 'title', 'swapcase', 'capitalize', 'partition',
